@@ -108,7 +108,7 @@ def _deco_names(fn):
 
 
 class Program:
-    def __init__(self, root='/repo', include_all=False):
+    def __init__(self, root='/repo', include_all=False, prune_guards=False):
         self.root = root
         self.pkg = os.path.join(root, 'optiland')
         self.modules = {}
@@ -116,6 +116,10 @@ class Program:
         self.classes = {}
         self.funcs = {}
         self.include_all = include_all
+        # statements under a one-armed guard that the reference tree does not
+        # have run only sometimes: the pruned model is the tree without them
+        self.prune_guards = prune_guards
+        self.added_guards = []
         self._load()
         self._mro_cache = {}
         self._sub_cache = {}
@@ -150,6 +154,38 @@ class Program:
         from . import canon
         self.idioms_restored, self.idiom_note = canon.restore_package(
             self.modules, self.sources)
+        self._find_added_guards()
+
+    def _find_added_guards(self):
+        from . import canon
+        ref = canon.reference_tests()
+        if not ref:
+            return
+        dig = canon.load_table().get('__digests__', {})
+        import hashlib
+        jumps = (ast.Return, ast.Raise, ast.Continue, ast.Break)
+        for rel, tree in self.modules.items():
+            if dig.get(rel) == hashlib.sha1(
+                    self.sources[rel].encode()).hexdigest():
+                continue
+            for owner in ast.walk(tree):
+                for fld in ('body', 'orelse', 'finalbody'):
+                    blk = getattr(owner, fld, None)
+                    if not (isinstance(blk, list) and blk and
+                            isinstance(blk[0], ast.stmt)):
+                        continue
+                    for i, st in enumerate(blk):
+                        if not (isinstance(st, ast.If) and not st.orelse):
+                            continue
+                        txt = ' '.join(unparse(st.test, 10000).split())
+                        if txt in ref:
+                            continue
+                        if any(isinstance(x, jumps) for b in st.body
+                               for x in ast.walk(b)):
+                            continue
+                        self.added_guards.append((rel, st.lineno, txt))
+                        if self.prune_guards:
+                            blk[i] = ast.copy_location(ast.Pass(), st)
         for rel, tree in self.modules.items():
             for n in tree.body:
                 if isinstance(n, ast.ClassDef):
